@@ -6,6 +6,7 @@ import (
 	"fmt"
 	"log/slog"
 	"reflect"
+	"sync"
 )
 
 var (
@@ -99,7 +100,15 @@ func setPropsFromMap(cfg *Config, updates map[string]any) (stagedProps []stagedP
 	return setPropsFromMapRecursive(reflect.ValueOf(cfg), updates)
 }
 
+// Updates are applied one at a time: two updates in flight would share the properties' staged and
+// previous values (the rollback of one could install the rejected value of the other) and could
+// rename an older snapshot of the file over a newer one.
+var updateMu sync.Mutex
+
 func UpdatePartialFromConfig(cfg *Config, updates map[string]any) (UpdateStatus, error) {
+	updateMu.Lock()
+	defer updateMu.Unlock()
+
 	slog.Info("Updating config with partial JSON", "updates", updates)
 
 	if updates == nil {
